@@ -61,6 +61,21 @@ def _call(fn, *a, **k):
         return ("exc", exc)
 
 
+def _quiet(fn, *a, **k):
+    """_call with logging silenced and figures closed (verbose analyses print and plot)."""
+    import logging
+    logging.disable(logging.CRITICAL)
+    try:
+        return _call(fn, *a, **k)
+    finally:
+        logging.disable(logging.NOTSET)
+        try:
+            import matplotlib.pyplot as plt
+            plt.close("all")
+        except Exception:
+            pass
+
+
 def _is_calc(exc):
     from pygaps.utilities.exceptions import CalculationError
     return isinstance(exc, CalculationError)
@@ -322,10 +337,14 @@ def _run_langmuir(case, ctx):
     dg = _h([nm, K, style, len(p)])
     iso = _restore(_iso(p, n, ads, T), r)
     for entry in ("raw", "isotherm"):
+        # (every third analysis through the isotherm entry point reports what it does: the numbers returned are the same)
+        vb = {"verbose": True} if (entry == "isotherm" and case["seed"] % 3 == 2) else {}
+        if vb:
+            ctx.count("langmuir", "isotherm/verbose")
         if lim is None:
-            res = _call(area_langmuir_raw, p, n, sigma) if entry == "raw" else _call(area_langmuir, iso)
+            res = _call(area_langmuir_raw, p, n, sigma) if entry == "raw" else _quiet(area_langmuir, iso, **vb)
         else:
-            res = _call(area_langmuir_raw, p, n, sigma, lim) if entry == "raw" else _call(area_langmuir, iso, p_limits=lim)
+            res = _call(area_langmuir_raw, p, n, sigma, lim) if entry == "raw" else _quiet(area_langmuir, iso, p_limits=lim, **vb)
         ctx.case(["langmuir", entry, dg, case["window"]])
         ctx.count("langmuir", "%s/window-%d-points" % (entry, len(inside)))
         key = "area_langmuir%s" % ("_raw" if entry == "raw" else "")
